@@ -5,6 +5,12 @@ The active profile is stored *by name only* (`settings.current_profile`), the en
 environment is current.  So every change of the current environment must be paired with a clear of the
 profile pointer, the name must be resolved inside the caller's own environment, and only services bound
 to the current environment may move the pointer.
+
+Who may write the pointer (R5): a bare name identifies a profile only together with the environment it is resolved in,
+so a name may be stored only by the one primitive (whose callers R3 vets) and only when it was looked up or created
+inside the writing service's own environment.  A writer keyed on a profile *name* alone (e.g. "rewrite the setting
+from the old to the new name when a profile is renamed") moves the pointer of the current environment on behalf of a
+profile of any environment.  Clears (DELETE) are always allowed: "no active profile" satisfies the statement.
 """
 
 from __future__ import annotations
@@ -34,6 +40,14 @@ EXPLANATION = (
     "never escape; every caller of a pointer-moving AuthService method obtained its receiver from current_auth_service(). "
     "R4: `set_settings_current_environment(u)` is reached only after `u` was created or looked up successfully; delete_environment deletes "
     "the environment's profiles and, on every path after deleting the row, tests whether it was current and resets to DEFAULT_ENVIRONMENT. "
+    "R5 (who may write the stored name): inventory of every SQL statement of the package that writes the settings table with key `current_profile` "
+    "(keys read through literals, concatenations and module constants; a settings write whose key cannot be read is an analysis error). "
+    "Statements that only DELETE are clears and allowed anywhere. A statement that *stores* a name (INSERT/REPLACE/UPDATE) must be the one inside the primitive "
+    "`set_settings_current_profile`, and there every bound parameter is the primitive's own argument — so the call inventory of R3 is the complete list of name writers; "
+    "any other storing statement is keyed at best on a profile name, which does not identify a profile across environments. "
+    "Inside AuthService the name handed to the primitive is, on every assignment that can reach it, either a parameter of the method (explicit selection; internal `self.<method>(…)` callers are followed) "
+    "or taken from a lookup/creation restricted to the service's environment (a config-manager call that receives `self.env.api_url`, or a method of the service all of whose results are such calls); "
+    "a name taken from an environment-blind lookup (by id, a literal, …) is reported. "
     "Not decided: interactive CLI flows (which profile the user is offered), concurrent llamactl processes, crash between the two settings writes."
 )
 TRUSTED = ["CPython ast", "sqlite3 executes the literal statements as written"]
@@ -329,6 +343,102 @@ def receiver_origin(call: ast.Call, fn: ast.AST, module_tree: ast.AST, depth: in
     return "unknown", ast.unparse(recv)
 
 
+# ------------------------------------------------------------------------------ R5 helpers
+def pointer_stores(fn: ast.AST) -> list[tuple[ast.Call, Sql]]:
+    """SQL statements directly in fn that store a value under the key current_profile (every write that is not a DELETE)."""
+    return [(c, s) for c, s in settings_writes(fn) if PROFILE_KEY in s.quoted and s.kind != "delete" and enclosing_function(c) is fn]
+
+
+def describe_store(s: Sql) -> str:
+    cols = [col for col, _r in s.where() if col != "key"]
+    if "value" in cols:
+        return ("it rewrites the stored name wherever it equals a given name; a bare name does not identify a profile (same-named profiles of other environments), "
+                "so an operation on a profile of another environment moves the pointer of the current one")
+    return "it stores a name without passing the primitive, outside the inventory of pointer writers bound to the current environment"
+
+
+def env_bound_methods(cls: ast.ClassDef) -> set[str]:
+    """Methods of AuthService every result of which is a config-manager call restricted to self.env.api_url."""
+    out = set()
+    for fn in cls.body:
+        if not isinstance(fn, FuncNode):
+            continue
+        rets = [r for r in ast.walk(fn) if isinstance(r, ast.Return) and r.value is not None and not is_none(r.value) and enclosing_function(r) is fn]
+        if rets and all(_env_bound_call(expand(r.value, r), set()) for r in rets):
+            out.add(fn.name)
+    return out
+
+
+def _env_bound_call(c: ast.AST, bound: set[str]) -> bool:
+    if not (isinstance(c, ast.Call) and isinstance(c.func, ast.Attribute)):
+        return False
+    recv = dotted(c.func.value)
+    if recv == "self":
+        return c.func.attr in bound
+    if recv is not None and last(recv) in ("config_manager",) and recv.startswith("self"):
+        return any(dotted(a) == "self.env.api_url" for a in list(c.args) + [k.value for k in c.keywords])
+    return False
+
+
+def name_sources(e: ast.AST, fn: ast.AST, bound: set[str], seen: frozenset = frozenset()) -> list[tuple[str, str]]:
+    """Flow-insensitive provenance of a profile name inside method fn: [(kind, text)] with kind in
+    'param' (a parameter of fn), 'env' (result of an environment-restricted lookup/creation), 'blind' (anything else that
+    can be named: an environment-blind call, a literal).  Unreadable binding forms raise AnchorError."""
+    if isinstance(e, (ast.Attribute, ast.Subscript, ast.Starred)):
+        return name_sources(e.value, fn, bound, seen)
+    if isinstance(e, ast.Await):
+        return name_sources(e.value, fn, bound, seen)
+    if isinstance(e, ast.IfExp):
+        return name_sources(e.body, fn, bound, seen) + name_sources(e.orelse, fn, bound, seen)
+    if isinstance(e, ast.BoolOp):
+        return [x for v in e.values for x in name_sources(v, fn, bound, seen)]
+    if isinstance(e, ast.NamedExpr):
+        return name_sources(e.value, fn, bound, seen)
+    if isinstance(e, ast.Constant):
+        return [] if e.value is None else [("blind", f"the literal {e.value!r}")]
+    if isinstance(e, ast.Call):
+        if _env_bound_call(e, bound):
+            return [("env", ast.unparse(e.func))]
+        return [("blind", f"`{ast.unparse(e.func)}(…)`, which is not restricted to the service's environment")]
+    if isinstance(e, ast.Name):
+        if e.id in seen:
+            return []
+        seen = seen | {e.id}
+        out: list[tuple[str, str]] = []
+        params = [a.arg for a in fn.args.posonlyargs + fn.args.args + fn.args.kwonlyargs]
+        found = False
+        for st in ast.walk(fn):
+            if enclosing_function(st) is not fn and st is not fn:
+                continue
+            if isinstance(st, ast.Assign):
+                for t in st.targets:
+                    if isinstance(t, ast.Name) and t.id == e.id:
+                        found = True
+                        out += name_sources(st.value, fn, bound, seen)
+                    elif any(isinstance(n, ast.Name) and n.id == e.id for n in ast.walk(t)) and not isinstance(t, (ast.Attribute, ast.Subscript)):
+                        raise AnchorError(f"C37.R5: `{e.id}` is bound by unpacking at line {st.lineno}")
+            elif isinstance(st, ast.AnnAssign) and isinstance(st.target, ast.Name) and st.target.id == e.id and st.value is not None:
+                found = True
+                out += name_sources(st.value, fn, bound, seen)
+            elif isinstance(st, (ast.For, ast.AsyncFor)) and any(isinstance(n, ast.Name) and n.id == e.id for n in ast.walk(st.target)):
+                found = True
+                out += name_sources(st.iter, fn, bound, seen)
+            elif isinstance(st, ast.comprehension) and any(isinstance(n, ast.Name) and n.id == e.id for n in ast.walk(st.target)):
+                found = True
+                out += name_sources(st.iter, fn, bound, seen)
+            elif isinstance(st, ast.NamedExpr) and st.target.id == e.id:
+                found = True
+                out += name_sources(st.value, fn, bound, seen)
+            elif isinstance(st, (ast.With, ast.AsyncWith)) and any(i.optional_vars is not None and any(isinstance(n, ast.Name) and n.id == e.id for n in ast.walk(i.optional_vars)) for i in st.items):
+                raise AnchorError(f"C37.R5: `{e.id}` is bound by a with statement at line {st.lineno}")
+        if e.id in params:
+            out.append(("param", e.id))
+        elif not found:
+            raise AnchorError(f"C37.R5: cannot tell where the name `{e.id}` written to the profile pointer comes from")
+        return out
+    raise AnchorError(f"C37.R5: unreadable source `{ast.unparse(e)}` of a name written to the profile pointer")
+
+
 # ------------------------------------------------------------------------------ the rules on a set of modules
 def eval_rules(mods: dict[str, tuple[object, ast.AST]], all_mods: list[tuple[object, ast.AST]]):
     """mods: role -> (module-like, tree) for 'config', 'env', 'auth'; all_mods: every module of the package.
@@ -578,6 +688,75 @@ def eval_rules(mods: dict[str, tuple[object, ast.AST]], all_mods: list[tuple[obj
         reason = f"reset value `{val}`, compares stored url with the deleted one: {cmp_ok}, a path after the row delete skips the test: {skipped}"
     yield ("ob", "C37.R4", "delete-resets-current", "after deleting the row, delete_environment tests whether it was current and resets to DEFAULT_ENVIRONMENT", ok, cm, reset or del_env, d_env, reason, [])
 
+    # ---------------------------------------------------------------- R5
+    n_sql = n_store = 0
+    for m, tree in all_mods:
+        for fn in [n for n in ast.walk(tree) if isinstance(n, FuncNode)]:
+            for c, s in settings_writes(fn):
+                if enclosing_function(c) is fn and (PROFILE_KEY in s.quoted or (s.kind == "delete" and "where" not in s.toks)):
+                    n_sql += 1
+            stores = pointer_stores(fn)
+            for i, (c, s) in enumerate(stores):
+                n_store += 1
+                yield ("ob", "C37.R5", f"pointer-sql-store:{s.kind}" + (f"#{i}" if len(stores) > 1 else ""),
+                       "an SQL statement that stores a name under settings.current_profile is the one inside the primitive set_settings_current_profile",
+                       fn is prim_prof, m, c, fn,
+                       f"`{s.text}` writes the active-profile name outside the primitive: " + describe_store(s), [])
+    yield ("floor", "C37.R5", "SQL writers of the key current_profile (stores and clears)", n_sql)
+    yield ("floor", "C37.R5", "SQL statements storing a name under current_profile", n_store)
+    pp = param_names(prim_prof)
+    if not pp:
+        raise AnchorError(f"`{SET_PROFILE}` takes no name")
+    pstores = pointer_stores(prim_prof)
+    if not pstores:
+        raise AnchorError(f"`{SET_PROFILE}` no longer stores the key {PROFILE_KEY}")
+    for c, s in pstores:
+        prm = sql_params(c)
+        if not isinstance(prm, (ast.Tuple, ast.List)):
+            raise AnchorError(f"parameters of the pointer write at line {c.lineno} are not a literal tuple")
+        got = [dotted(expand(x, enclosing_stmt(c))) for x in prm.elts]
+        ok = bool(got) and all(g == pp[0] for g in got) and len(got) == s.toks.count("?")
+        yield ("ob", "C37.R5", "primitive-stores-its-argument", "the primitive stores exactly the name it was given (so its callers are the complete list of name writers)", ok, cm, c, prim_prof,
+               f"the statement binds {[ast.unparse(x) for x in prm.elts]}, expected only `{pp[0]}`", [])
+    bound = env_bound_methods(AS)
+    as_methods = {n.name: n for n in AS.body if isinstance(n, FuncNode)}
+    n_names = 0
+
+    def sources_through_params(arg: ast.AST, fn: ast.AST, depth: int = 0) -> list[tuple[str, str]]:
+        out = []
+        for kind, txt in name_sources(arg, fn, bound):
+            if kind != "param" or depth >= 3:
+                out.append((kind, txt))
+                continue
+            out.append((kind, txt))
+            plist = [a.arg for a in fn.args.posonlyargs + fn.args.args if a.arg != "self"]
+            for g in as_methods.values():
+                for c2 in ast.walk(g):
+                    if isinstance(c2, ast.Call) and isinstance(c2.func, ast.Attribute) and dotted(c2.func.value) == "self" and c2.func.attr == fn.name and as_methods.get(fn.name) is fn:
+                        a2 = kwarg(c2, txt, plist.index(txt) if txt in plist else None)
+                        if a2 is None:
+                            raise AnchorError(f"C37.R5: internal caller of `{fn.name}` at line {c2.lineno} passes no `{txt}`")
+                        out += sources_through_params(a2, enclosing_function(c2) or g, depth + 1)
+        return out
+
+    seen5: dict = {}
+    for fn in [n for n in ast.walk(AS) if isinstance(n, FuncNode)]:
+        for c in calls_named(fn, SET_PROFILE):
+            if enclosing_function(c) is not fn or not isinstance(c.func, ast.Attribute):
+                continue
+            arg = kwarg(c, "name", 0)
+            if arg is None or is_none(arg):
+                continue
+            n_names += 1
+            src = sources_through_params(arg, fn)
+            blind = [t for k, t in src if k == "blind"]
+            seen5[fn.name] = seen5.get(fn.name, 0) + 1
+            yield ("ob", "C37.R5", f"written-name-from-own-env:{fn.name}" + (f"#{seen5[fn.name]}" if seen5[fn.name] > 1 else ""),
+                   "the name an AuthService stores as active is an explicit selection or was looked up / created inside the service's own environment",
+                   not blind and bool(src), am, c, fn,
+                   "the stored name comes from " + "; ".join(blind or ["nothing readable"]) + " — a profile of another environment can lend its name, and the same-named profile of the current environment becomes active unpicked", [])
+    yield ("floor", "C37.R5", "names handed to the primitive inside AuthService", n_names)
+
 
 # ------------------------------------------------------------------------------ new private static helpers folded into their callers
 class _StaticInliner(Inliner):
@@ -645,6 +824,9 @@ def run(chk) -> None:
         ("C37.R3", "AuthService constructions"): 3,
         ("C37.R3", "callers of pointer-moving AuthService methods"): 6,
         ("C37.R4", "calls that set the current environment"): 2,
+        ("C37.R5", "SQL writers of the key current_profile (stores and clears)"): 2,  # the two statements of the primitive; clears elsewhere are R1's business
+        ("C37.R5", "SQL statements storing a name under current_profile"): 1,
+        ("C37.R5", "names handed to the primitive inside AuthService"): 3,
     }
     for item in eval_rules(mods, [(m, m.tree) for m in pkg]):
         if item[0] == "floor":
@@ -654,7 +836,7 @@ def run(chk) -> None:
             _k, rule, inst, desc, ok, m, node, fn, reason, path = item
             chk.ob(rule, desc, ok, m=m, node=node, fn=fn, instance=inst, reason=reason, path=path)
 
-    # planted fixture: R2, R3 and R4 expect zero findings on the repo; each must report its planted defect
+    # planted fixture: R2, R3, R4 and R5 expect zero findings on the repo; each must report its planted defect
     fpath = Path(__file__).resolve().parents[2] / FIXTURE
     if not fpath.is_file():
         raise AnchorError(f"fixture {FIXTURE} missing")
@@ -666,7 +848,7 @@ def run(chk) -> None:
     for item in eval_rules(fmods, [(fm, tree)]):
         if item[0] == "ob" and not item[4]:
             bad[item[1]] = bad.get(item[1], 0) + 1
-    for rule in ("C37.R1", "C37.R2", "C37.R3", "C37.R4"):
+    for rule in ("C37.R1", "C37.R2", "C37.R3", "C37.R4", "C37.R5"):
         chk.floor(rule, "planted defects reported in the fixture", bad.get(rule, 0), 1)
     chk.observe("delete_profile clears the pointer whenever the deleted profile's *name* equals the stored name, even if it belongs to another environment: the active profile becomes none (allowed by the statement)")
     chk.observe("the two settings writes of a switch are separate transactions; a crash between them is outside the statement")
@@ -703,6 +885,13 @@ def _rst_helper(clear: bool) -> str:
             '        conn.execute(\n            "INSERT OR REPLACE INTO settings (key, value) VALUES (\'current_environment_api_url\', ?)",\n            (DEFAULT_ENVIRONMENT.api_url,),\n        )\n'
             + ('        conn.execute("DELETE FROM settings WHERE key = \'current_profile\'")\n' if clear else ""))
 
+_UPD = '    def update_profile(self, profile: Auth) -> None:\n        """Update a profile"""\n        with sqlite3.connect(self.db_path) as conn:\n'
+_REN_SQL = ('            previous = conn.execute(\n                "SELECT name FROM profiles WHERE id = ?", (profile.id,)\n            ).fetchone()\n            if previous and previous[0] != profile.name:\n'
+            '                conn.execute(\n                    "UPDATE settings SET value = ? WHERE key = \'current_profile\' AND value = ?",\n                    (profile.name, previous[0]),\n                )\n')
+_PTR = ("def _to_auth(row: Any) -> Auth:", '_ACTIVE = "current_profile"\n\n\ndef _to_auth(row: Any) -> Auth:')
+_REN_CONST = ('            was = conn.execute("SELECT name FROM profiles WHERE id = ?", (profile.id,)).fetchone()\n            now = conn.execute("SELECT value FROM settings WHERE key = \'" + _ACTIVE + "\'").fetchone()\n'
+              '            if was and now and was[0] == now[0]:\n                conn.execute(f"INSERT OR REPLACE INTO settings (key, value) VALUES (\'{_ACTIVE}\', ?)", (profile.name,))\n')
+
 
 TWINS: list[Twin] = [
     # ---- SQL assembled from a shared column constant; single-row lookup / reset block behind a private static helper
@@ -737,6 +926,18 @@ TWINS: list[Twin] = [
     Twin("pointer written outside AuthService", _C, "            conn.commit()\n            return cursor.rowcount > 0\n\n    def update_profile", "            conn.commit()\n            if cursor.rowcount > 0:\n                self.set_settings_current_profile(profile_name)\n            return cursor.rowcount > 0\n\n    def update_profile", "C37.R3"),
     Twin("benign: probe local renamed", _E, "        svc = AuthService(self.config_manager(), base_env)\n        version = svc.fetch_server_version()", "        probe = AuthService(self.config_manager(), base_env)\n        version = probe.fetch_server_version()", None),
     Twin("benign: current env in a local", _E, "        return AuthService(self.config_manager(), self.get_current_environment())", "        env = self.get_current_environment()\n        return AuthService(self.config_manager(), env)", None),
+    # ---- R5 breaking
+    Twin("rename keeps the profile active: pointer rewritten by old name (the seed's form)", _C, _UPD, _UPD + _REN_SQL, "C37.R5"),
+    Twin("pointer stored by SQL under a key held in a module constant", _C, *_multi(_C, [_PTR, (_UPD, _UPD + _REN_CONST)]), "C37.R5"),
+    Twin("new profile made active by SQL inside set_project", _C, '                (project_id, profile_name, env_url),\n            )\n', '                (project_id, profile_name, env_url),\n            )\n            conn.execute("REPLACE INTO settings (key, value) VALUES (\'current_profile\', ?)", (profile_name,))\n', "C37.R5"),
+    Twin("primitive normalises the name it stores", _C, "                    (name,),\n", "                    (name.lower(),),\n", "C37.R5"),
+    Twin("profile looked up by id (any environment) made active by name", _A, "    def update_profile(self, profile: Auth) -> None:\n", "    def activate_profile_by_id(self, id: str) -> None:\n        profile = self.get_profile_by_id(id)\n        if profile:\n            self.set_current_profile(profile.name)\n\n    def update_profile(self, profile: Auth) -> None:\n", "C37.R5"),
+    Twin("selection falls back to a literal name", _A, "        if profiles:\n            self.set_current_profile(profiles[0].name)", "        self.set_current_profile(profiles[0].name if profiles else \"default\")", "C37.R5"),
+    # ---- R5 benign
+    Twin("benign: a rename clears the pointer (no active profile is allowed)", _C, _UPD, _UPD + _REN_SQL.replace('"UPDATE settings SET value = ? WHERE key = \'current_profile\' AND value = ?",\n                    (profile.name, previous[0]),', '"DELETE FROM settings WHERE key = \'current_profile\' AND value = ?",\n                    (previous[0],),'), None),
+    Twin("benign: primitive's statement in a module constant, value through a local", _C, *_multi(_C, [("def _to_auth(row: Any) -> Auth:", '_SET_PTR = "INSERT OR REPLACE INTO settings (key, value) VALUES (\'current_profile\', ?)"\n\n\ndef _to_auth(row: Any) -> Auth:'), ('                conn.execute(\n                    "INSERT OR REPLACE INTO settings (key, value) VALUES (\'current_profile\', ?)",\n                    (name,),\n                )', '                stored = name\n                conn.execute(_SET_PTR, (stored,))')]), None),
+    Twin("benign: first profile picked through locals and a loop", _A, "        if profiles:\n            self.set_current_profile(profiles[0].name)", "        for candidate in profiles:\n            chosen = candidate.name\n            self.set_current_profile(chosen)\n            break", None),
+    Twin("benign: renamed active profile of the service's own environment stays active (through the service)", _A, "    def update_profile(self, profile: Auth) -> None:\n        self.config_manager.update_profile(profile)\n", "    def update_profile(self, profile: Auth) -> None:\n        active = self.get_current_profile()\n        self.config_manager.update_profile(profile)\n        if active is not None and active.id == profile.id:\n            self.set_current_profile(self.get_profile(profile.name).name)\n", None),
     # ---- R4
     Twin("switch to an unknown url", _E, _CHK, "", "C37.R4"),
     Twin("reset when it was NOT current", _C, "            if row and row[0] == api_url:", "            if row and row[0] != api_url:", "C37.R4"),
